@@ -103,6 +103,13 @@ def rule_C05(env):
                     first.extend(w[1])
             flat = E.flatten(first)
             head = flat[0][1] if flat and flat[0][0] == "lit" else b""
+            # opcode bytes generate_internal patches in itself (the FRAME opcode over the reserved bytes)
+            for w in g.writes:
+                if w[0] == "patch" and w[3] and w[3][0][0] == "lit" and len(w[3][0][1]) == 1 and w[2] == 1:
+                    row = spec.by_code.get(w[3][0][1][0])
+                    if row is not None and row["proto"] > ver:
+                        res.add("R05.b", "generate_internal/%s" % row["name"], "generate_internal writes %s (introduced in protocol %d) into protocol-%d output" % (
+                            row["name"], row["proto"], ver), loc_g)
             h = g.h
             pe_field = h.g.fields[ctx.field_index(ctx.gen_adt, "state")].fields[ctx.field_index(ctx.state_adt, "proto_emitted")]
             pe_val = pe_field.value if hasattr(pe_field, "value") else pe_field
